@@ -408,7 +408,7 @@ func c06(r *core.Run) {
 		names = append(names, strings.TrimPrefix(p, core.Mod+"/"))
 	}
 	sort.Strings(names)
-	r.Floor("C06.W1", "packages that read peer messages: "+strings.Join(names, " "), len(names), 8)
+	r.Floor("C06.W1", "packages that read peer messages: "+strings.Join(names, " "), len(names), 4)
 	nSites := 0
 	for _, f := range w.Funcs {
 		if !protoPkgs[f.Pkg.Pkg.Path()] {
